@@ -34,10 +34,13 @@ func c10BuildM(passthrough bool, l CfgLit, debug bool) (http.Handler, *vlib.Noop
 		m := new(cors.Middleware)
 		return m.Wrap(inner), inner, m, nil
 	}
-	m, err := cors.NewMiddleware(l.Config())
+	cfg := l.Config()
+	m, err := cors.NewMiddleware(cfg)
 	if err != nil {
 		return nil, nil, nil, err
 	}
+	scribbleConfig(&cfg)
+	scribbleConfig(m.Config())
 	m.SetDebug(debug)
 	return m.Wrap(inner), inner, m, nil
 }
